@@ -20,11 +20,17 @@ import tempfile
 import time
 
 VERIF = os.path.dirname(os.path.dirname(os.path.abspath(__file__)))
-REPO = os.environ.get("WILD_REPO", "/repo")
+REPO = os.environ.get("WILD_REPO", "/repo").rstrip("/")
 TARGET = os.path.join(VERIF, ".target")
 LEAN_DIR = os.path.join(VERIF, "lean")
-WVH = os.path.join(TARGET, "wvh", "debug", "wvh")
-WILD = os.path.join(TARGET, "wild", "debug", "wild")
+# WILD_REPO=<other checkout> (used only to try the checks against seeded changes in a scratch worktree
+# without touching /repo): separate cargo target dirs and a path-rewritten copy of the harness crate.
+ALT = None if REPO == "/repo" else os.path.join(TARGET, "alt", REPO.strip("/").replace("/", "_"))
+BUILD_ROOT = TARGET if ALT is None else ALT
+OUT_ROOT = VERIF if ALT is None else ALT   # evidence/ and replays/ of alt runs never overwrite the real ones
+HARNESS_DIR = os.path.join(VERIF, "harness") if ALT is None else os.path.join(ALT, "harness")
+WVH = os.path.join(BUILD_ROOT, "wvh", "debug", "wvh")
+WILD = os.path.join(BUILD_ROOT, "wild", "debug", "wild")
 DRIVER = os.path.join(LEAN_DIR, ".lake", "build", "bin", "wmdriver")
 STD_AXIOMS = {"propext", "Classical.choice", "Quot.sound"}
 FORBIDDEN = re.compile(r"\bsorry\b|\badmit\b|^\s*axiom\s|native_decide|implemented_by|\bunsafe\s|maxHeartbeats\s+0\b")
@@ -118,23 +124,42 @@ def _private_copy(src, dest_dir, name):
     return dst
 
 
+def _sync_alt_harness():
+    src = os.path.join(VERIF, "harness")
+    os.makedirs(os.path.join(HARNESS_DIR, "src"), exist_ok=True)
+    os.makedirs(os.path.join(HARNESS_DIR, ".cargo"), exist_ok=True)
+    for fn in os.listdir(os.path.join(src, "src")):
+        a, b = os.path.join(src, "src", fn), os.path.join(HARNESS_DIR, "src", fn)
+        data = open(a, "rb").read()
+        if not os.path.exists(b) or open(b, "rb").read() != data:
+            open(b, "wb").write(data)
+    toml = open(os.path.join(src, "Cargo.toml")).read().replace('"/repo/', '"' + REPO + '/')
+    for name, text in (("Cargo.toml", toml), ("Cargo.lock", open(os.path.join(src, "Cargo.lock")).read()),
+                       (".cargo/config.toml", '[net]\noffline = true\n[build]\ntarget-dir = "%s"\n' % os.path.join(ALT, "wvh"))):
+        b = os.path.join(HARNESS_DIR, name)
+        if not os.path.exists(b) or open(b).read() != text:
+            open(b, "w").write(text)
+
+
 def build_wvh(private_dir=None):
     global WVH
-    with Lock("cargo-wvh"):
-        rc, out = sh(["cargo", "build", "--offline"], cwd=os.path.join(VERIF, "harness"))
+    with Lock("cargo-wvh" if ALT is None else "cargo-wvh-" + os.path.basename(ALT)):
+        if ALT is not None:
+            _sync_alt_harness()
+        rc, out = sh(["cargo", "build", "--offline"], cwd=HARNESS_DIR)
         if rc != 0:
-            raise BuildError("cargo build of wvh (harness against /repo working tree) failed:\n" + out[-4000:])
-        WVH = _private_copy(os.path.join(TARGET, "wvh", "debug", "wvh"), private_dir, "wvh")
+            raise BuildError("cargo build of wvh (harness against the working tree of " + REPO + ") failed:\n" + out[-4000:])
+        WVH = _private_copy(os.path.join(BUILD_ROOT, "wvh", "debug", "wvh"), private_dir, "wvh")
 
 
 def build_wild(private_dir=None):
     global WILD
-    with Lock("cargo-wild"):
+    with Lock("cargo-wild" if ALT is None else "cargo-wild-" + os.path.basename(ALT)):
         rc, out = sh(["cargo", "build", "--offline", "--manifest-path", os.path.join(REPO, "Cargo.toml"), "-p", "wild-linker",
-                      "--features", "verif", "--target-dir", os.path.join(TARGET, "wild")])
+                      "--features", "verif", "--target-dir", os.path.join(BUILD_ROOT, "wild")])
         if rc != 0:
             raise BuildError("cargo build of wild (feature verif) failed:\n" + out[-4000:])
-        WILD = _private_copy(os.path.join(TARGET, "wild", "debug", "wild"), private_dir, "wild")
+        WILD = _private_copy(os.path.join(BUILD_ROOT, "wild", "debug", "wild"), private_dir, "wild")
 
 
 def lake_build(targets):
@@ -301,7 +326,7 @@ class Ctx:
         self.violations.append(Violation(key, what, replay, found_input))
 
     def replay_dir(self):
-        d = os.path.join(VERIF, "replays", self.pid + "-files")
+        d = os.path.join(OUT_ROOT, "replays", self.pid + "-files")
         os.makedirs(d, exist_ok=True)
         return d
 
@@ -317,8 +342,8 @@ def load_known():
 
 
 def write_evidence(pid, ev):
-    os.makedirs(os.path.join(VERIF, "evidence"), exist_ok=True)
-    p = os.path.join(VERIF, "evidence", pid + ".json")
+    os.makedirs(os.path.join(OUT_ROOT, "evidence"), exist_ok=True)
+    p = os.path.join(OUT_ROOT, "evidence", pid + ".json")
     tmp = p + ".tmp"
     with open(tmp, "w") as f:
         json.dump(ev, f, indent=1, sort_keys=True, default=str)
@@ -422,14 +447,14 @@ def _run(mod, ctx):
             reported.append(v)
     for k, v in known_hit.items():
         print(f"KNOWN-FINDING: property={pid} {known_keys[k].get('what', v.what)}")
-    os.makedirs(os.path.join(VERIF, "replays"), exist_ok=True)
+    os.makedirs(os.path.join(OUT_ROOT, "replays"), exist_ok=True)
     exit_code = 0
     seen = set()
     for v in reported:
         if v.key in seen:
             continue
         seen.add(v.key)
-        rp = os.path.join(VERIF, "replays", f"{pid}-{hashlib.sha256(v.key.encode()).hexdigest()[:10]}.json")
+        rp = os.path.join(OUT_ROOT, "replays", f"{pid}-{hashlib.sha256(v.key.encode()).hexdigest()[:10]}.json")
         with open(rp, "w") as f:
             json.dump({"property": pid, "key": v.key, "what": v.what, "replay": v.replay, "broken": ctx.broken, "seed": ctx.seed, "tier": ctx.tier,
                        "found_failing_input": v.found_input}, f, indent=1, default=str)
